@@ -2561,7 +2561,10 @@ impl Channel {
             old_secret,
         )?;
 
-        if let Some(secrets) = self.enforcement_state.counterparty_secrets.as_mut() {
+        // Stage the new secret in a copy of the store and install it only after
+        // the last check below, so that a refused request changes nothing.
+        let mut staged_secrets = self.enforcement_state.counterparty_secrets.clone();
+        if let Some(secrets) = staged_secrets.as_mut() {
             let backwards_num = INITIAL_COMMITMENT_NUMBER - revoke_num;
             if secrets.provide_secret(backwards_num, old_secret.secret_bytes()).is_err() {
                 error!(
@@ -2580,6 +2583,7 @@ impl Channel {
         }
 
         validator.set_next_counterparty_revoke_num(&mut self.enforcement_state, revoke_num + 1)?;
+        self.enforcement_state.counterparty_secrets = staged_secrets;
 
         trace_enforcement_state!(self);
         self.persist()?;
